@@ -146,8 +146,38 @@ struct Ex {
     return false;
   }
 
+  const VarDecl *localHandleVar(const Expr *E) {
+    if (auto *DR = dyn_cast_or_null<DeclRefExpr>(strip(E)))
+      if (auto *VD = dyn_cast<VarDecl>(DR->getDecl())) if (VD->isLocalVarDeclOrParm() && isNodeHandleType(VD->getType())) return VD;
+    return nullptr;
+  }
+
   bool stmtEvent(const Stmt *S, Object &o) {
-    if (auto *CE = dyn_cast<CallExpr>(S)) { o = callEvent(CE); return true; }
+    if (auto *CE = dyn_cast<CallExpr>(S)) {
+      o = callEvent(CE);
+      // local node_handle variables handed to a non-const reference parameter are (re)defined by the call
+      if (const FunctionDecl *F = calleeOf(CE)) {
+        Array defs;
+        unsigned off = (isa<CXXOperatorCallExpr>(CE) && isa<CXXMethodDecl>(F)) ? 1 : 0;
+        for (unsigned i = 0; i + off < CE->getNumArgs() && i < F->getNumParams(); i++) {
+          QualType PT = F->getParamDecl(i)->getType();
+          if (PT->isLValueReferenceType() && !PT.getNonReferenceType().isConstQualified())
+            if (const VarDecl *VD = localHandleVar(CE->getArg(i + off))) defs.push_back(VD->getNameAsString());
+        }
+        if (!defs.empty()) o["defs"] = std::move(defs);
+      }
+      return true;
+    }
+    if (auto *DS = dyn_cast<DeclStmt>(S)) {
+      for (auto *D : DS->decls()) if (auto *VD = dyn_cast<VarDecl>(D)) if (isNodeHandleType(VD->getType()) && !VD->getType()->isReferenceType()) {
+        o["k"] = "ldef";
+        o["var"] = VD->getNameAsString();
+        o["rhs"] = VD->hasInit() ? exprText(Ctx, VD->getInit()) : std::string("");
+        o["line"] = lineOf(SM, VD->getLocation());
+        return true;
+      }
+      return false;
+    }
     if (auto *CC = dyn_cast<CXXConstructExpr>(S)) {
       o["k"] = "construct";
       o["q"] = qualName(CC->getConstructor());
@@ -202,6 +232,13 @@ struct Ex {
         o["op"] = BO->getOpcodeStr().str();
         o["l"] = operand(BO->getLHS());
         o["r"] = operand(BO->getRHS());
+        o["line"] = lineOf(SM, BO->getBeginLoc());
+        return true;
+      }
+      if (BO->isAssignmentOp()) if (const VarDecl *VD = localHandleVar(BO->getLHS())) {
+        o["k"] = "ldef";
+        o["var"] = VD->getNameAsString();
+        o["rhs"] = exprText(Ctx, BO->getRHS());
         o["line"] = lineOf(SM, BO->getBeginLoc());
         return true;
       }
